@@ -19,6 +19,7 @@ import importlib
 import json
 import multiprocessing as mp
 import os
+import signal
 import subprocess
 import sys
 import time
@@ -110,6 +111,9 @@ class Acc:
     def violation(self, kind, case, detail=None, **sig):
         """`sig`: extra fields a known-finding entry may match on."""
         self.nviol += 1
+        self.counters['viol:' + kind + ''.join(
+            f',{k}={v}' for k, v in sorted(sig.items())
+            if isinstance(v, (bool, int, str)) and k != 'where')] += 1
         if len(self.viol) < MAX_VIOL_PER_SHARD:
             v = dict(kind=kind, case=case, detail=detail)
             v.update(sig)
@@ -148,17 +152,43 @@ def _init_worker(pid):
     _MOD = importlib.import_module('vlib.props.' + pid.lower())
 
 
+class CaseTimeout(Exception):
+    """A single case ran longer than the module's CASE_TIMEOUT seconds."""
+
+
+def _on_alarm(signum, frame):
+    raise CaseTimeout('case did not finish within the time limit '
+                      '(non-terminating fixpoint or search?)')
+
+
+def run_with_timeout(mod, case, acc):
+    """Run one case; non-termination is an observation, not a hang."""
+    limit = float(getattr(mod, 'CASE_TIMEOUT', 20))
+    signal.signal(signal.SIGALRM, _on_alarm)
+    signal.setitimer(signal.ITIMER_REAL, limit)
+    try:
+        mod.run_case(case, acc)
+    except CaseTimeout as exc:
+        acc.ev()
+        acc.violation('timeout', case, detail=str(exc))
+    except Exception as exc:  # noqa
+        acc.ev()
+        exception_violation(acc, case, exc)
+    finally:
+        signal.setitimer(signal.ITIMER_REAL, 0)
+
+
 def _work(shard):
     acc = Acc()
     t0 = time.time()
     try:
         for case in _MOD.cases(shard):
-            try:
-                _MOD.run_case(case, acc)
-            except Exception as exc:  # noqa
-                acc.ev()
-                exception_violation(acc, case, exc)
+            run_with_timeout(_MOD, case, acc)
             acc.sample(case)
+            if acc.counters.get('viol:timeout', 0) >= 1:
+                # do not spend the budget on a tree that hangs
+                acc.count('capped')
+                break
     except Exception as exc:  # enumeration itself failed: harness bug
         return dict(harness_error=''.join(traceback.format_exception(
             type(exc), exc, exc.__traceback__)), shard=repr(shard)[:300])
@@ -195,10 +225,7 @@ def matches(finding, viol):
 
 def run_single(mod, case):
     acc = Acc()
-    try:
-        mod.run_case(case, acc)
-    except Exception as exc:  # noqa
-        exception_violation(acc, case, exc)
+    run_with_timeout(mod, case, acc)
     return acc
 
 
@@ -400,6 +427,11 @@ def main(argv=None):
         coverage=cov, assumptions=list(mod.ASSUMPTIONS),
         wall_s=round(wall, 2), violations=len(new))
     edir = os.path.join(VERIF, 'evidence')
+    if os.environ.get('VERIF_NO_EVIDENCE'):
+        # runs against deliberately broken trees keep evidence and replays out
+        edir = '/var/tmp/omega_verif_scratch_evidence'
+        for pth in written:
+            os.remove(pth)
     os.makedirs(edir, exist_ok=True)
     with open(os.path.join(edir, f'{pid}.json'), 'w') as f:
         json.dump(ev, f, indent=1, default=str)
